@@ -10,7 +10,8 @@ ORACLE = {"05": sc.oracle_C05, "06": sc.oracle_C06_full, "07": sc.oracle_C07}["0
 
 def run(ck):
     sc.run_property(ck, ORACLE, MODES)
-    ck.run_fixed({"waiting_component_gets_the_async_factorys_product": "C06:wait-failed"})
+    ck.run_fixed({"waiting_component_gets_the_async_factorys_product": "C06:wait-failed",
+                  "nested_tree_publications_release_waiters": "C06:wait-failed"})
 
 
 def replay(ck, obj):
